@@ -80,6 +80,27 @@ var properties = map[string]*propSpec{
 			{Check: "TestC02_Total", Class: "outcome:ErrorNotSupported", Min: 0.0005},
 		},
 	},
+	"C03": {
+		Title: "Evaluation is total: results are non-empty or a documented runtime error",
+		Checks: []checkSpec{
+			{Test: "TestC03_Total", Quick: 50000, Thorough: 800000, Rapid: true},
+		},
+		Assumptions: assume(specAssumption, "'bounded time' is decided as: no case exceeds the 20 s hang detector"),
+		Floors: []floor{
+			{Check: "TestC03_Total", Class: "outcome:values", Min: 0.03},
+			{Check: "TestC03_Total", Class: "outcome:ErrorMemberNotExist", Min: 0.03},
+			{Check: "TestC03_Total", Class: "outcome:ErrorTypeUnmatched", Min: 0.03},
+			{Check: "TestC03_Total", Class: "outcome:ErrorFunctionFailed", Min: 0.005},
+		},
+	},
+	"C11": {
+		Title: "Index and slice arithmetic is exact and total for every start/end/step/length",
+		Checks: []checkSpec{
+			{Test: "TestC11_Exhaustive", Quick: 1, Thorough: 1},
+			{Test: "TestC11_Random", Quick: 30000, Thorough: 500000, Rapid: true},
+		},
+		Assumptions: assume("the slice oracle is spec.SliceIndices, pinned to CPython's slice semantics by a digest over 33775 combinations (spec/slice_test.go)", "integers outside Go's int are ErrorInvalidArgument at parse time and out of the property's domain"),
+	},
 	"C17": {
 		Title: "The accepted language is the published grammar; syntax errors point at the spot",
 		Checks: []checkSpec{
